@@ -355,6 +355,14 @@ func (p *Prog) classesAtReturnOn(b *ssa.BasicBlock, e *errEngine) (errSet, *ssa.
 		last := b.Instrs[len(b.Instrs)-1]
 		if r, ok := last.(*ssa.Return); ok {
 			ev := unspill(b, r, r.Results[len(r.Results)-1])
+			// handed to a suppression helper: the class is that of the argument
+			if c, idx := callOf(ev); c != nil && idx == 1 {
+				for _, g := range p.gates() {
+					if c.Call.StaticCallee() == g.Fn && len(c.Call.Args) == 2 {
+						return e.classify(c.Call.Args[1], factsAt(b), map[ssa.Value]bool{}), r
+					}
+				}
+			}
 			return e.classify(ev, factsAt(b), map[ssa.Value]bool{}), r
 		}
 		if _, ok := last.(*ssa.Jump); ok {
